@@ -19,7 +19,7 @@ RULE = ("cases = (first message: CONNECT with a handshake payload shape x valida
 ASSUMPTIONS = ["for an unknown serializer id or an exception whose __str__ raises the statement promises no reason: only 'nothing ran' and 'closed' are required",
                "pre-connected socket pairs are exempt and not exercised", "'is closed' = EOF/RST observed within a 10 s watchdog"]
 REQUIRED_REACH = ["installed_validators_ok", "late_refusals_ok", "late_acceptances_ok", "sibling_refusals_ok", "baseexception_validators_ok", "collected_weak_ids_refused", "reused_tickets_refused", "refused_ok", "accepted_ok", "pipelined_invokes_sent", "validator_raised", "wrong_first_type", "unknown_object", "malformed_first"]
-SHARD_TIMEOUT = {"quick": 240, "thorough": 2800}
+SHARD_TIMEOUT = {"quick": 480, "thorough": 2800}
 
 
 class WeirdStr(Exception):
